@@ -473,4 +473,120 @@ theorem witness_accepted_without_dv :
     ((insertRows { witnessSheet with dvs := [] } 5 1).2.rows.map (·.cells.length)) = [0, 0, 0, 0, 0, 0, 0, 1] := by
   decide +kernel
 
+
+/-! ## Insert then remove, whole grid -/
+
+/-- `k` successful `RemoveRow(row)` calls in sequence -/
+def removeN (row : Int) : Nat → Sheet → Option Sheet
+  | 0, s => some s
+  | k + 1, s =>
+    match removeRow s row with
+    | (.ok, s') => removeN row k s'
+    | _ => none
+
+theorem removeN_undoes (s : Sheet) (row : Int) (k : Nat) (t t2 : Sheet) (hw : WF t.rows)
+    (hv : ∀ r, (viewAt t.rows r).2 = Spec.insAt row (k : Int) emptyView.2 (fun i => (viewAt s.rows i).2) r)
+    (h : removeN row k t = some t2) :
+    WF t2.rows ∧ ∀ r, (viewAt t2.rows r).2 = (viewAt s.rows r).2 := by
+  induction k generalizing t with
+  | zero =>
+    simp only [removeN, Option.some.injEq] at h
+    subst h
+    refine ⟨hw, fun r => ?_⟩
+    rw [hv r]; unfold Spec.insAt
+    by_cases c : r < row
+    · simp [c]
+    · have : ¬ r < row + ((0 : Nat) : Int) := by omega
+      simp [c, this]
+  | succ k ih =>
+    unfold removeN at h
+    rcases hr : removeRow t row with ⟨st, t'⟩
+    rw [hr] at h
+    cases st <;> simp only at h
+    all_goals (try (exact absurd h (by simp)))
+    · obtain ⟨hw', hv', _, _, _⟩ := remove_row_refines t t' hw row hr
+      apply ih t' hw' _ h
+      intro r
+      have hk1 : ((k + 1 : Nat) : Int) = (k : Int) + 1 := by omega
+      rw [hv' r]
+      by_cases c : r < row
+      · simp only [Spec.delAt, c, if_true]
+        rw [hv r]
+        simp only [Spec.insAt, c, if_true]
+      · simp only [Spec.delAt, c, if_false]
+        rw [hv (r + 1)]
+        simp only [Spec.insAt, hk1]
+        have c1 : ¬ r + 1 < row := by omega
+        rw [if_neg c1, if_neg c]
+        by_cases c2 : r < row + (k : Int)
+        · rw [if_pos (by omega : r + 1 < row + ((k : Int) + 1)), if_pos c2]
+        · rw [if_neg (by omega : ¬ r + 1 < row + ((k : Int) + 1)), if_neg c2]
+          have e : r + 1 - ((k : Int) + 1) = r - (k : Int) := by omega
+          rw [e]
+
+/-- clause "inserting n rows and then removing them restores the original sheet", for the whole grid:
+after an accepted `InsertRows(row, n)` and `n` accepted `RemoveRow(row)`, every row shows the attributes
+and cell payloads it showed before (the `hidden` flags too when no auto filter header is removed on the way;
+range objects: `insert_remove_id_interval`) -/
+theorem insert_remove_rows_id (s s1 s2 : Sheet) (hw : WF s.rows) (row : Int) (n : Nat)
+    (h1 : insertRows s row n = (.ok, s1)) (h2 : removeN row n s1 = some s2) :
+    WF s2.rows ∧ (∀ r, (viewAt s2.rows r).2 = (viewAt s.rows r).2) ∧
+    (∀ c r, gridAt s2.rows c r = gridAt s.rows c r) := by
+  obtain ⟨hw1, hv1, _, _, _⟩ := insert_rows_refines s s1 hw row n h1
+  have := removeN_undoes s row n s1 s2 hw1 (fun r => by
+    rw [hv1 r]; unfold Spec.insAt; split
+    · rfl
+    · split <;> rfl) h2
+  exact ⟨this.1, this.2, fun c r => by unfold gridAt; rw [this.2 r]⟩
+
+
+/-- no range-anchored object that an adjuster could fail on -/
+def NoRangeObjects (s : Sheet) : Prop :=
+  s.dvs = [] ∧ s.cfs = [] ∧ s.merges = [] ∧ s.filter = none ∧ s.tables = []
+
+theorem runAdjusters_no_objects (t : Sheet) (dir : Dir) (num off : Int) (h : NoRangeObjects t) :
+    (runAdjusters Facts.C06.adjusters dir num off t).1 = .ok := by
+  obtain ⟨h1, h2, h3, h4, h5⟩ := h
+  rw [adjuster_order_ok]
+  simp [runAdjusters, runAdjuster, adjustSqItems, adjustMerges, adjustFilter, adjustTables, h1, h2, h3, h4, h5]
+
+/-- clause "an edit that is rejected … changes nothing", full strength for `InsertRows` on dense worksheets
+without range objects: whatever the arguments, a status other than `ok` leaves the sheet as it was. The
+hypothesis `NoRangeObjects` is what the current code needs: with a data validation / conditional format /
+auto filter / table reaching the last rows the statement is false (`finding_rejected_after_mutation`). -/
+theorem rejected_noop_insert_rows (s s' : Sheet) (hw : WF s.rows) (hno : NoRangeObjects s) (row n : Int)
+    (st : Status) (h : insertRows s row n = (st, s')) (hst : st ≠ .ok) : s' = s := by
+  unfold insertRows insertRowsG at h
+  by_cases g1 : row < 1
+  · simp [g1] at h; exact h.2.symm
+  by_cases g2 : row ≥ maxRows ∨ n ≥ maxRows
+  · simp [g1, g2] at h; exact h.2.symm
+  by_cases g3 : n < 1
+  · simp [g1, g2, g3] at h; exact h.2.symm
+  simp only [g1, g2, g3, if_false] at h
+  have hrow : 1 ≤ row := by omega
+  have hn : 1 ≤ n := by omega
+  cases hd : adjustRowDimensions s.rows row n with
+  | none =>
+    have : adjustHelperG false s .rows row n = (.err, s) := by
+      unfold adjustHelperG adjustDims; simp [hd]
+    rw [this] at h; exact (Prod.mk.inj h).2.symm
+  | some rows1 =>
+    exfalso
+    obtain ⟨e1, hlim⟩ := adjustRowDimensions_some s.rows hw.rowsDense row n hrow rows1 hd
+    obtain ⟨out, ho, hslots⟩ := rows_ins_slots s.rows hw.rowsDense row n hrow hn
+    obtain ⟨hwf, _⟩ := rows_ins_view s.rows hw row n hrow hn (fun hc => hlim hc (by omega)) out hslots
+    have hdims : adjustDims s .rows row n = some { s with rows := rows1 } := by
+      unfold adjustDims; simp [hd]
+    have hfw := adjustHelper_forward s { s with rows := rows1 } .rows row n out out hdims
+      (by simpa [e1] using ho) (checkRow_id hwf)
+    unfold adjustHelper at hfw
+    rw [hfw] at h
+    have hok := runAdjusters_no_objects
+      { ({ s with rows := rows1 } : Sheet) with
+        links := adjustHyperlinks ({ s with rows := rows1 } : Sheet).links .rows row n, rows := out }
+      .rows row n hno
+    rw [h] at hok
+    exact hst hok
+
 end XlModel.Props.C06
